@@ -17,6 +17,7 @@ from __future__ import annotations
 import ast
 
 from ..callgraph import CallGraph
+from ..cfg import call_name
 from ..cli import cli_flags, documented_confvals
 from ..index import AnalysisError, get_index, norm, walk_no_nested
 from ..report import Check
@@ -76,6 +77,20 @@ SEPARATELY_KEYED = {
 }
 
 
+# Options attributes that no flag and no documented config key sets, but that config_parser.parse_section accepts
+# because it accepts every attribute with a non-None default. One reason each; none of them is a supported way to
+# configure mypy, and no failing warm/cold pair was constructed for them (unlike reveal_verbose_types and
+# pos_only_special_methods, which were and are reported).
+INTERNAL_SWITCHES = {
+    "preserve_asts": "keeps function bodies in memory after checking (stubgen, mypyc, daemon); read only to decide whether bodies may be skipped or freed, never changes diagnostics or cached bytes",
+    "fine_grained_incremental": "the daemon's mode switch, set unconditionally by dmypy_server.Server.__init__; keying it would separate the daemon's cache from the batch cache it is designed to load (--use-fine-grained-cache)",
+    "export_types": "toggled by the daemon / API embedders around an inspection to keep the expression type map; does not change diagnostics or cached bytes",
+    "inspections": "toggled by the daemon around an `inspect` request on the live Options object; a config-file value would change how value-restricted type variables are expanded (unproven: no documented way to set it)",
+    "include_docstrings": "stubgen's switch: docstrings are kept in the parsed tree; diagnostics do not read them",
+    "use_builtins_fixtures": "set by the test harness for the lib-stub fixtures; only selects the fallback type of `__spec__` (unproven: no documented way to set it)",
+}
+
+
 def options_attrs(ix) -> dict[str, ast.AST]:
     ci = ix.cls(OPTIONS)
     init = ci.methods.get("__init__")
@@ -130,6 +145,7 @@ def run(chk: Check) -> None:
     ix = get_index()
     run_dep_import_options(chk, ix)
     run_option_writers(chk, ix, Resolver(ix))
+    run_chained_plugin_data(chk, ix)
     R = Resolver(ix)
     chk.trusted += ["receiver typing by annotations (sa/resolve.py)", "RTA call graph with name-based fallback (sa/callgraph.py)"]
     mopt = ix.module("mypy.options")
@@ -329,6 +345,20 @@ def run(chk: Check) -> None:
     if len(parent) < 3000:
         raise AnalysisError(f"zone collapsed to {len(parent)} functions (call graph lost its roots?)")
     settable = {f["dest"].replace("special-opts:", "") for f in cli_flags(ix)} | set(documented_confvals(ix.root))
+    # config_parser.parse_section accepts *any* key that names an Options attribute whose default is not None
+    # (`dv = getattr(template, key, None)`; the converter is `type(dv)`), documented or not
+    ps = ix.func("mypy.config_parser.parse_section")
+    if any(isinstance(c, ast.Call) and call_name(c) == "getattr" and len(c.args) == 3 and norm(c.args[0]) == "template" for c in ast.walk(ps.node)):
+        oi = ix.cls("mypy.options.Options").methods["__init__"]
+        for a in ast.walk(oi.node):
+            tgt = None
+            if isinstance(a, ast.Assign) and len(a.targets) == 1:
+                tgt, val = a.targets[0], a.value
+            elif isinstance(a, ast.AnnAssign) and a.value is not None:
+                tgt, val = a.target, a.value
+            if tgt is not None and isinstance(tgt, ast.Attribute) and isinstance(tgt.value, ast.Name) and tgt.value.id == "self" and not tgt.attr.startswith("_"):
+                if isinstance(val, ast.Constant) and isinstance(val.value, (bool, int, float, str)) and val.value is not None:
+                    settable.add(tgt.attr)
     not_settable = sorted(set(O) - settable)
     chk.extra["options_not_settable_by_cli_or_documented_config"] = not_settable
     seen_keys = set()
@@ -350,8 +380,11 @@ def run(chk: Check) -> None:
             if opt in SEPARATELY_KEYED:
                 r1.ok(key, where, SEPARATELY_KEYED[opt])
                 continue
+            if opt in INTERNAL_SWITCHES:
+                r1.ok(key, where, "internal switch (accepted by the config parser only because every Options attribute with a non-None default is): " + INTERNAL_SWITCHES[opt])
+                continue
             if opt not in settable:
-                r1.ok(key, where, "exempt: no command-line flag (hidden ones included) and no documented config key sets this attribute; only the test harness, the daemon, stubgen/stubtest or API embedders do")
+                r1.ok(key, where, "exempt: no command-line flag (hidden ones included), no documented config key, and not accepted by the config parser either (its default is None or a container); only the test harness, the daemon, stubgen/stubtest or API embedders set it")
                 continue
             r1.violation(
                 key,
@@ -503,3 +536,29 @@ def run_option_writers(chk: Check, ix, R) -> None:
             r6.ok(key, ac.loc(), "re-initialised by apply_changes")
         else:
             r6.violation(key, init.loc(), f"`{a}` is private derived state of an Options object; apply_changes copies every attribute of the parent (replace_object_state) and does not reset it, so a clone whose section changes options still carries the parent's value")
+
+
+def run_chained_plugin_data(chk: Check, ix) -> None:
+    """R09.7: what several plugins contribute to the cache validity data is combined, not short-circuited."""
+    r7 = chk.rule("R09.7", "ChainedPlugin (the one plugin object a build talks to when several plugins are configured) answers hook lookups with the first plugin that has a hook, but the methods that *collect* data for the cache — report_config_data (stored as CacheMeta.plugin_data and compared by find_cache_meta) and get_additional_deps — consult every plugin on every path: no return or break inside a loop over self._plugins, and the result is built from all of them; with a first-one-wins answer the configuration of a later plugin is not part of the cache key and changing it leaves every module fresh", floor=2)
+    cp = ix.cls("mypy.plugin.ChainedPlugin")
+    for name in ("report_config_data", "get_additional_deps"):
+        f = cp.methods.get(name)
+        if f is None:
+            raise AnalysisError(f"ChainedPlugin.{name} not found")
+        par = f.module.parents()
+        over = [n for n in ast.walk(f.node) if (isinstance(n, ast.For) and norm(n.iter) == "self._plugins") or (isinstance(n, ast.comprehension) and norm(n.iter) == "self._plugins")]
+        key = f"ChainedPlugin.{name} consults every plugin"
+        if not over:
+            r7.violation(key, f.loc(), "no iteration over self._plugins: the plugins' data is not collected at all")
+            continue
+        early = []
+        for lp in over:
+            if isinstance(lp, ast.For):
+                for x in ast.walk(lp):
+                    if isinstance(x, (ast.Return, ast.Break)):
+                        early.append(x)
+        if early:
+            r7.violation(key, f.loc(early[0]), f"`{norm(early[0])[:50]}` inside the loop over self._plugins: the first plugin with something to report ends the collection, what the remaining plugins report never reaches the cache meta (their configuration can change without invalidating anything)")
+        else:
+            r7.ok(key, f.loc(over[0] if isinstance(over[0], ast.For) else f.node))
